@@ -41,7 +41,7 @@ STABLE = [
     "r1\t50\t0\t10\t+\t<chr1:10-25<hap-A.1:100-104\t19\t0\t10\t10\t10\t0\ttp:A:S\tcg:Z:10=\n",
     "r2\t50\t3\t13\t+\t>hap-A.1:110-120\t10\t0\t10\t8\t10\t60\tcg:Z:10=\n",
 ]
-BONO = {"s0": (0, 0), "s1": (2, 0), "s2": (4, 0), "a0": (1, 1), "a1": (3, 1), "b0": (3, 2)}
+BONO = {"s0": (0, 0), "s1": (2, 0), "s2": (4, 0), "a0": (1, 1), "a1": (3, 1), "b0": (3, 2), "c9": (3, 3)}
 
 
 def setup():
